@@ -432,6 +432,42 @@ func (c *Ctx) checkWorkDominated(fn *ssa.Function, input *ssa.Parameter, okBlk *
 	c.add("discharged", "C18.L", fn, fn.Pos(), fmt.Sprintf("%d work site(s) on the input, all dominated by the guard", n))
 }
 
+// emptyOnlyBlock: b is reached only when len(input) == 0 (the zero side of a test of the input's length against 0).
+func emptyOnlyBlock(fn *ssa.Function, input *ssa.Parameter, b *ssa.BasicBlock) bool {
+	for _, d := range fn.Blocks {
+		iff, ok := d.Instrs[len(d.Instrs)-1].(*ssa.If)
+		if !ok {
+			continue
+		}
+		bo, ok := iff.Cond.(*ssa.BinOp)
+		if !ok {
+			continue
+		}
+		k, isK := constInt(bo.Y)
+		call, isCall := bo.X.(*ssa.Call)
+		if !isK || !isCall {
+			continue
+		}
+		if bi, ok := call.Call.Value.(*ssa.Builtin); !ok || bi.Name() != "len" || rootParam(call.Call.Args[0]) != input {
+			continue
+		}
+		side := -1 // the successor taken when the length is 0
+		switch {
+		case bo.Op == token.EQL && k == 0, bo.Op == token.LSS && k == 1, bo.Op == token.LEQ && k == 0:
+			side = 0
+		case bo.Op == token.NEQ && k == 0, bo.Op == token.GTR && k == 0, bo.Op == token.GEQ && k == 1:
+			side = 1
+		}
+		if side < 0 {
+			continue
+		}
+		if t := d.Succs[side]; len(t.Preds) == 1 && t.Dominates(b) {
+			return true
+		}
+	}
+	return false
+}
+
 // checkSuccessDominated: "any longer input is rejected": no return with a nil error is reachable without passing the
 // guard — a success return outside the guard's continuation answers over-long input like any other. Exempt: a return
 // under `len(input) == 0` (an empty text is not longer than a non-zero limit).
@@ -457,25 +493,52 @@ func (c *Ctx) checkSuccessDominated(fn *ssa.Function, input *ssa.Parameter, okBl
 		}
 		return false
 	}
-	emptyOnly := func(b *ssa.BasicBlock) bool {
+	emptyOnly := func(b *ssa.BasicBlock) bool { return emptyOnlyBlock(fn, input, b) }
+	// the guard helper's own "input is empty" answer: `if empty { return nil }` in front of the error test is a return
+	// for empty input only, provided every return of the helper that may answer true lies under len(input) == 0
+	emptyFlag := func(b *ssa.BasicBlock) bool {
+		if after == nil {
+			return false
+		}
+		callee := c.StaticCallee(&after.Call)
+		if callee == nil || len(callee.Blocks) == 0 {
+			return false
+		}
+		ai := -1
+		for i, a := range after.Call.Args {
+			if rootParam(a) == input && i < len(callee.Params) {
+				ai = i
+			}
+		}
+		if ai < 0 {
+			return false
+		}
 		for _, d := range fn.Blocks {
 			iff, ok := d.Instrs[len(d.Instrs)-1].(*ssa.If)
 			if !ok {
 				continue
 			}
-			bo, ok := iff.Cond.(*ssa.BinOp)
-			if !ok || bo.Op != token.EQL {
+			ex, ok := iff.Cond.(*ssa.Extract)
+			if !ok || ex.Tuple != ssa.Value(after) {
 				continue
 			}
-			k, isK := constInt(bo.Y)
-			call, isCall := bo.X.(*ssa.Call)
-			if !isK || k != 0 || !isCall {
+			if t := d.Succs[0]; len(t.Preds) != 1 || !t.Dominates(b) {
 				continue
 			}
-			if bi, ok := call.Call.Value.(*ssa.Builtin); !ok || bi.Name() != "len" || rootParam(call.Call.Args[0]) != input {
-				continue
+			sound := true
+			for _, hb := range callee.Blocks {
+				hr, ok := hb.Instrs[len(hb.Instrs)-1].(*ssa.Return)
+				if !ok || ex.Index >= len(hr.Results) {
+					continue
+				}
+				if k, ok := hr.Results[ex.Index].(*ssa.Const); ok && k.Value != nil && k.Value.Kind() == constant.Bool && !constant.BoolVal(k.Value) {
+					continue
+				}
+				if !emptyOnlyBlock(callee, callee.Params[ai], hb) {
+					sound = false
+				}
 			}
-			if t := d.Succs[0]; len(t.Preds) == 1 && t.Dominates(b) {
+			if sound {
 				return true
 			}
 		}
@@ -494,7 +557,7 @@ func (c *Ctx) checkSuccessDominated(fn *ssa.Function, input *ssa.Parameter, okBl
 		if after != nil && b == after.Block() {
 			continue // the tail delegation itself
 		}
-		if mayBeNil(ret.Results[len(ret.Results)-1], 0) && !emptyOnly(b) {
+		if mayBeNil(ret.Results[len(ret.Results)-1], 0) && !emptyOnly(b) && !emptyFlag(b) {
 			c.add("violated", "C18.L", fn, ret.Pos(), "a return with a nil error is reachable without passing the input-length guard: input longer than the limit is answered instead of rejected")
 		}
 	}
